@@ -225,7 +225,8 @@ func (f *field) describe() string {
 type scenario struct {
 	fields  []*field
 	typ     reflect.Type
-	carrier int // 0 none needed / file, 1 b64, 2 both (file wins, b64 is a decoy)
+	shared  bool // two fields share one CFG_* variable
+	carrier int  // 0 none needed / file, 1 b64, 2 both (file wins, b64 is a decoy)
 	tail    []string
 }
 
@@ -332,6 +333,30 @@ func genScenario(t *rapid.T) *scenario {
 		f.envName = "CFG_" + strings.Join(sn, "_")
 		sc.fields = append(sc.fields, f)
 	}
+	// two fields may share their variable: a flat LogLevel next to a nested Log.Level are both CFG_LOG_LEVEL. The
+	// variable is then a source for both of them.
+	if rapid.IntRange(0, 5).Draw(t, "sharedVariable") == 0 {
+		for _, g := range sc.fields {
+			if len(g.group) != 1 {
+				continue
+			}
+			i := len(sc.fields)
+			f := &field{goName: g.group[0] + g.goName, kind: g.kind, pipeTag: g.pipeTag, env: g.env, envName: g.envName}
+			f.tagName = fmt.Sprintf("f%d", i)
+			f.flagName = f.tagName
+			sep := ","
+			if f.pipeTag {
+				sep = "|"
+			}
+			f.def = genMention(t, f.kind, "default", false, sep+"\x00", 60)
+			f.js = genMention(t, f.kind, "json", true, "", 50)
+			f.cli = genMention(t, f.kind, "cli", false, "\x00", 30)
+			f.cliForm = rapid.IntRange(0, 3).Draw(t, "cliform")
+			sc.fields = append(sc.fields, f)
+			sc.shared = true
+			break
+		}
+	}
 	// build the struct type
 	mkField := func(f *field) reflect.StructField {
 		var tag string
@@ -426,6 +451,9 @@ func runScenario(t *rapid.T, sc *scenario) string {
 			ptr.Elem().FieldByIndex(f.index).Set(reflect.ValueOf(old).Convert(kindType[f.kind]))
 		}
 		ev.Label("gen:struct_holds_values_of_an_earlier_round")
+	}
+	if sc.shared {
+		ev.Label("gen:two_fields_share_one_CFG_variable")
 	}
 	// environment
 	var setEnv []string
